@@ -65,6 +65,8 @@ type Kernel struct {
 	Props map[string]bool
 	// PanicProp is the property a panic inside a task is attributed to.
 	PanicProp string
+	// Cleanup stops repo-owned goroutines (writer loop, observer); used when a run is abandoned after a panic.
+	Cleanup func()
 }
 
 // NewKernel creates a kernel over the given tape.
@@ -298,6 +300,16 @@ func (k *Kernel) Kill(task string) int {
 	return n
 }
 
+// FirstLine cuts a message at its first newline (stack traces carry addresses and goroutine ids, which
+// must stay out of the trace: the trace hash identifies the execution across processes).
+func FirstLine(s string) string {
+	if i := strings.IndexByte(s, '\n'); i >= 0 {
+		return s[:i]
+	}
+
+	return s
+}
+
 // Fail records the first violation.
 func (k *Kernel) Fail(v *Violation) {
 	if k.draining.Load() {
@@ -313,7 +325,7 @@ func (k *Kernel) Fail(v *Violation) {
 
 	if k.Viol == nil && !k.draining.Load() {
 		k.Viol = v
-		k.Tr.Logf("VIOLATION %s", v.Error())
+		k.Tr.Logf("VIOLATION %s", FirstLine(v.Error()))
 	}
 }
 
